@@ -18,6 +18,10 @@
 //	session-cleanup:deleted-record-not-owned the cleanup of a session deleted a record the session did not own when
 //	                                         the cleanup's write was applied                                  (O-12)
 //	session-cleanup:orphaned-record-of-dead-session   a record carrying the id of a session that no longer exists  (O-12)
+//	session-cleanup:not-atomic-with-session  the end of a session (CloseSession or expiry) is not ONE log entry deleting
+//	                                         every owned record, the session key and the shadow range (monitor on the
+//	                                         leader's WAL), or a leader started from a log prefix that ends inside the
+//	                                         cleanup finds the session alive without all its records / gone with some left
 //	session-cleanup:other-record-touched / owned-record-survived (no interleaving involved) / session-key-survived
 //	session:leader-close-blocked-by-expiring-session   (watchdog of the leader-change scenario, see closeLeader)
 //
@@ -148,6 +152,65 @@ func (it *gateIter) Valid() bool {
 	return v
 }
 
+// ---------------------------------------------------------------- recording wrapper around the WAL factory
+
+// recWalFactory records every entry the controller appends to its WAL (the replicated log: what a follower, or the
+// next leader, will apply). It changes nothing.
+type recWalFactory struct {
+	inner   wal.Factory
+	mu      sync.Mutex
+	entries []*proto.LogEntry
+}
+
+func (f *recWalFactory) NewWal(ns string, sh int64, p wal.CommitOffsetProvider) (wal.Wal, error) {
+	w, err := f.inner.NewWal(ns, sh, p)
+	if err != nil {
+		return nil, err
+	}
+	return &recWal{Wal: w, f: f}, nil
+}
+func (f *recWalFactory) Close() error { return f.inner.Close() }
+func (f *recWalFactory) record(e *proto.LogEntry) {
+	c := &proto.LogEntry{Term: e.Term, Offset: e.Offset, Timestamp: e.Timestamp, Value: append([]byte(nil), e.Value...)}
+	f.mu.Lock()
+	f.entries = append(f.entries, c)
+	f.mu.Unlock()
+}
+func (f *recWalFactory) count() int {
+	f.mu.Lock()
+	defer f.mu.Unlock()
+	return len(f.entries)
+}
+func (f *recWalFactory) upTo(n int) []*proto.LogEntry {
+	f.mu.Lock()
+	defer f.mu.Unlock()
+	return append([]*proto.LogEntry(nil), f.entries[:n]...)
+}
+
+type recWal struct {
+	wal.Wal
+	f *recWalFactory
+}
+
+func (w *recWal) Append(e *proto.LogEntry) error      { w.f.record(e); return w.Wal.Append(e) }
+func (w *recWal) AppendAsync(e *proto.LogEntry) error { w.f.record(e); return w.Wal.AppendAsync(e) }
+func (w *recWal) AppendAndSync(e *proto.LogEntry, cb func(error)) {
+	w.f.record(e)
+	w.Wal.AppendAndSync(e, cb)
+}
+
+func writesOf(e *proto.LogEntry) []*proto.WriteRequest {
+	v := &proto.LogEntryValue{}
+	if err := v.UnmarshalVT(e.Value); err != nil {
+		return nil
+	}
+	return v.GetRequests().GetWrites()
+}
+
+type noCommit struct{}
+
+func (noCommit) CommitOffset() int64 { return -1 }
+
 // ---------------------------------------------------------------- one node
 
 type noFollowers struct{}
@@ -169,7 +232,7 @@ type node struct {
 	dir  string
 	g    *gate
 	kvf  *gateFactory
-	wf   wal.Factory
+	wf   *recWalFactory
 	lc   server.LeaderController
 	term int64
 }
@@ -178,6 +241,29 @@ var nodeCounter int
 var nodeMu sync.Mutex
 
 func newNode() *node {
+	n := newNodeDirs()
+	n.lead()
+	return n
+}
+
+// newNodeFromLog: a node whose WAL holds exactly the given entries and whose DB is empty, then NewTerm (a higher
+// term) + BecomeLeader: what a replica that received this prefix of the log does when it is elected.
+func newNodeFromLog(entries []*proto.LogEntry) *node {
+	n := newNodeDirs()
+	w, err := n.wf.inner.NewWal("default", shard, noCommit{})
+	hx.Must(err)
+	for _, e := range entries {
+		hx.Must(w.Append(e))
+		if e.Term > n.term {
+			n.term = e.Term
+		}
+	}
+	hx.Must(w.Close())
+	n.lead()
+	return n
+}
+
+func newNodeDirs() *node {
 	base := os.Getenv("VERIF_TMP")
 	if base == "" {
 		base = "/var/tmp"
@@ -191,8 +277,7 @@ func newNode() *node {
 	hx.Must(err)
 	n := &node{dir: dir, g: &gate{}}
 	n.kvf = &gateFactory{inner: inner, g: n.g}
-	n.wf = wal.NewWalFactory(&wal.FactoryOptions{BaseWalDir: filepath.Join(dir, "wal"), Retention: time.Hour, SegmentSize: 1 << 20, SyncData: false})
-	n.lead()
+	n.wf = &recWalFactory{inner: wal.NewWalFactory(&wal.FactoryOptions{BaseWalDir: filepath.Join(dir, "wal"), Retention: time.Hour, SegmentSize: 1 << 20, SyncData: false})}
 	return n
 }
 
@@ -257,6 +342,26 @@ func (n *node) put(key, value string, sess *int64) proto.Status {
 	r, err := n.lc.WriteBlock(context.Background(), &proto.WriteRequest{Shard: &sh, Puts: []*proto.PutRequest{p}})
 	hx.Must(err)
 	return r.Puts[0].Status
+}
+
+func (n *node) putMany(keys []string, value string, sess *int64) {
+	sh := shard
+	req := &proto.WriteRequest{Shard: &sh}
+	for _, k := range keys {
+		p := &proto.PutRequest{Key: k, Value: []byte(value)}
+		if sess != nil {
+			v := *sess
+			p.SessionId = &v
+		}
+		req.Puts = append(req.Puts, p)
+	}
+	r, err := n.lc.WriteBlock(context.Background(), req)
+	hx.Must(err)
+	for i, p := range r.Puts {
+		if p.Status != proto.Status_OK {
+			panic(fmt.Sprintf("put %q answered %v", keys[i], p.Status))
+		}
+	}
 }
 
 func (n *node) del(key string) proto.Status {
@@ -403,6 +508,86 @@ func cleanupExact(before, after *view, id int64, viol func(sig, det string)) {
 	}
 }
 
+// sessionEnd is the structural monitor on the leader's log: [from, now) are the entries appended while session id was
+// ended (CloseSession or expiry) and no client wrote. The end of a session has to be ONE entry that deletes every record
+// the session owned, the session key and the shadow range; if it is not, every log prefix that ends at one of those
+// entries is given to a real new leader (fresh DB, NewTerm + BecomeLeader), which must find the session alive with ALL
+// its records or gone with NONE.
+func (n *node) sessionEnd(id int64, from int, owned []string, replayAlways bool, viol func(sig, det string)) int {
+	to := n.wf.count()
+	all := n.wf.upTo(to)
+	ents := all[from:]
+	sk := server.SessionKey(server.SessionId(id))
+	if len(ents) == 0 {
+		return 0 // the cleanup ran before the window was opened (or not at all: other verdicts)
+	}
+	ok := len(ents) == 1
+	if ok {
+		ws := writesOf(ents[0])
+		ok = len(ws) == 1
+		if ok {
+			dels := map[string]bool{}
+			for _, d := range ws[0].Deletes {
+				dels[d.Key] = true
+			}
+			hasRange := false
+			for _, r := range ws[0].DeleteRanges {
+				if r.StartInclusive == sk+"/" && r.EndExclusive == sk+"//" {
+					hasRange = true
+				}
+			}
+			missing := 0
+			for _, k := range owned {
+				if !dels[k] {
+					missing++
+				}
+			}
+			if !dels[sk] || !hasRange || missing > 0 {
+				ok = false
+				viol("session-cleanup:not-atomic-with-session", fmt.Sprintf("the log entry that ends session %d (offset %d): deletes the session key: %v, deletes the shadow range: %v, owned records it does not delete: %d of %d",
+					id, ents[0].Offset, dels[sk], hasRange, missing, len(owned)))
+			}
+		}
+	}
+	if len(ents) > 1 {
+		var desc []string
+		for _, e := range ents {
+			nd, hasKey := 0, false
+			for _, w := range writesOf(e) {
+				nd += len(w.Deletes)
+				for _, d := range w.Deletes {
+					if d.Key == sk {
+						hasKey = true
+					}
+				}
+			}
+			desc = append(desc, fmt.Sprintf("offset %d: %d deletes, session key: %v", e.Offset, nd, hasKey))
+		}
+		viol("session-cleanup:not-atomic-with-session", fmt.Sprintf("the end of session %d (owning %d records) was written as %d log entries instead of one [%s]", id, len(owned), len(ents), strings.Join(desc, "; ")))
+	}
+	if ok && !replayAlways {
+		return len(ents)
+	}
+	for i := range ents {
+		r := newNodeFromLog(all[:from+i+1])
+		v := r.view()
+		_, alive := v.sessions[id]
+		armed := inIds(server.VerifSessionIds(r.lc), id)
+		present := 0
+		for _, k := range owned {
+			if rc, ok := v.recs[k]; ok && rc.sess != nil && *rc.sess == id {
+				present++
+			}
+		}
+		if (alive && present != len(owned)) || (!alive && present != 0) || alive != armed {
+			viol("session-cleanup:not-atomic-with-session", fmt.Sprintf("a leader elected on the log prefix ending at offset %d (entry %d of %d written by the end of session %d) finds the session key present: %v, the session armed in its session manager: %v, and %d of the %d records the session owned",
+				ents[i].Offset, i+1, len(ents), id, alive, armed, present, len(owned)))
+		}
+		r.close()
+	}
+	return len(ents)
+}
+
 // waitGone polls until the session key has left the DB; returns the time it was first seen gone.
 func (n *node) waitGone(id int64, limit time.Duration) (time.Time, bool) {
 	deadline := time.Now().Add(limit)
@@ -462,13 +647,16 @@ func runScen(s scen, o *hx.Out, mu *sync.Mutex) {
 		id, t0 := n.create(T)
 		n.put(k1, "e1", &id)
 		n.put(k2, "e2", &id)
-		n.view().mirror(viol)
+		pre := n.view()
+		pre.mirror(viol)
+		from := n.wf.count()
 		gone, ok := n.waitGone(id, T+4*time.Second)
 		if !ok {
 			viol("session:never-expired", fmt.Sprintf("session %d (timeout %v) still there after %v without heartbeats", id, T, T+4*time.Second))
 			break
 		}
 		early("no heartbeats", gone, t0)
+		n.sessionEnd(id, from, pre.owned(id), false, viol)
 		v := n.view()
 		v.mirror(viol)
 		if len(v.owned(id)) > 0 {
@@ -593,10 +781,12 @@ func runScen(s scen, o *hx.Out, mu *sync.Mutex) {
 		n.del(k1)
 		n.view().mirror(viol)
 		before := n.view()
+		from := n.wf.count()
 		_, err := n.lc.CloseSession(&proto.CloseSessionRequest{Shard: shard, SessionId: a})
 		hx.Must(err)
 		after := n.view()
 		cleanupExact(before, after, a, viol)
+		n.sessionEnd(a, from, before.owned(a), false, viol)
 		after.mirror(viol)
 	case "o12-close", "o12-expiry":
 		// session.delete() parked between its List and its Write; variant: 0 a plain put takes over an owned key,
@@ -642,6 +832,7 @@ func runScen(s scen, o *hx.Out, mu *sync.Mutex) {
 			n.put("unrelated2", "u", &other)
 		}
 		before := n.view()
+		from := n.wf.count()
 		close(release)
 		if s.name == "o12-close" {
 			if err := <-closed; err != nil {
@@ -653,6 +844,51 @@ func runScen(s scen, o *hx.Out, mu *sync.Mutex) {
 		after := n.view()
 		cleanupExact(before, after, id, viol)
 		after.mirror(viol)
+		// the keys were listed before the interleaved writes: only "one entry, with session key and range" is checked here
+		n.sessionEnd(id, from, nil, false, viol)
+	case "big":
+		// a session owning `variant` records ends (even sizes and every size >= 999 by CloseSession, the others and the
+		// dedicated long-timeout case by expiry): one log entry, and the prefix replay on it
+		size := s.variant
+		byExpiry := T > 0
+		timeout := 30 * time.Second
+		if byExpiry {
+			timeout = T
+		}
+		n.putMany([]string{"big/plain-0", "zz-plain"}, "plain", nil)
+		id, _ := n.create(timeout)
+		for i := 0; i < size; i += 100 {
+			var ks []string
+			for j := i; j < size && j < i+100; j++ {
+				ks = append(ks, fmt.Sprintf("big/%04d", j))
+			}
+			n.putMany(ks, "e", &id)
+		}
+		before := n.view()
+		if len(before.owned(id)) != size {
+			if byExpiry {
+				res = "expired-while-filling" // a stalled machine: nothing to check
+				break
+			}
+			panic(fmt.Sprintf("session owns %d records, %d expected", len(before.owned(id)), size))
+		}
+		from := n.wf.count()
+		if byExpiry {
+			if _, ok := n.waitGone(id, timeout+5*time.Second); !ok {
+				viol("session:never-expired", fmt.Sprintf("session %d (timeout %v, %d records) never expired", id, timeout, size))
+				break
+			}
+		} else {
+			_, err := n.lc.CloseSession(&proto.CloseSessionRequest{Shard: shard, SessionId: id})
+			hx.Must(err)
+		}
+		after := n.view()
+		cleanupExact(before, after, id, viol)
+		after.mirror(viol)
+		nent := n.sessionEnd(id, from, before.owned(id), true, viol)
+		mu.Lock()
+		o.Count(fmt.Sprintf("big:records=%d:entries=%d", size, nent))
+		mu.Unlock()
 	case "close-during-expiry":
 		// DIAGNOSTIC (liveness, not part of C14's claim, no verdict): the expiring session's goroutine is parked in
 		// delete(); Close() is called; the goroutine is released. Recorded in the case result and the statistics.
@@ -726,6 +962,10 @@ func main() {
 		scens = append(scens, scen{"o12-close", 0, v + 5*rng.Intn(2)}, scen{"o12-expiry", 150 * time.Millisecond, v + 5*rng.Intn(2)})
 	}
 	scens = append(scens, scen{"close-during-expiry", 100 * time.Millisecond, 0})
+	for _, size := range []int{0, 1, 999, 1000, 1001, 1500} {
+		scens = append(scens, scen{"big", 0, size})
+	}
+	scens = append(scens, scen{"big", 200 * time.Millisecond, rng.Intn(2)}, scen{"big", 1500 * time.Millisecond, 1001 + rng.Intn(2)*499})
 	for i := 0; i < f.N; i++ {
 		T := hx.Pick(rng, timeouts) * time.Millisecond
 		for _, name := range []string{"expiry", "heartbeats", "leader-change", "dead-write", "takeover"} {
